@@ -55,6 +55,11 @@
                         before the k-th committed-marker write; locked: pendingMtx is held there (the
                         pending key of ids[k] is deleted and its marker is written in ONE critical
                         section); rm: keys it deleted from pending so far (clist cleaned at the end)
+   p.durable            ghost: keys of the evidence of every block whose application is DURABLE, i.e.
+                        the saved sm.State says the block is done (after a restart the handshake
+                        replays a block only when the saved state is one behind the block store).
+                        This is "committed before" in the statement's sense, whatever the pool's
+                        own committed markers say
    p.reported           ghost: the SET of pairs consensus reported since the last Update / start
                         (what must become pending evidence, whatever the buffer did with it)
    p.height             pool.state.LastBlockHeight      (LastBlockTime = c.time[p.height])
@@ -77,6 +82,8 @@ CONSTANTS
   Weak_PendingSkipsExpiry, \* CheckEvidence trusts already-pending evidence without an expiry check (code before the fix)
   Weak_LateAddUnchecked,   \* the store step of AddEvidence does not re-check the committed marker (code before the fix)
   Weak_ExpiryUsesStartupParams, \* isExpired / pruning keep the age limits NewPool saw; Update never refreshes them
+  Weak_UpdateAfterStateSave, \* state/execution.go ApplyBlock saves the state BEFORE it tells the pool which
+                               \* evidence the block committed (a crash in between: no replay, no marker)
   Weak_CommittedMarkersDeferred, \* markEvidenceAsCommitted deletes the pending keys under the mutex but writes the
                                \* committed markers later, in one batch, after the mutex is released
   Weak_BufferDedupIgnoresVoteType, \* ReportConflictingVotes drops a pair when one with the same height, round,
@@ -205,6 +212,7 @@ AdmissibleAt(c, p, id, H) ==
   /\ Proves(c, p, id)
   /\ ~ExpiredBoth(c, H, HOf(c, id), TimeAt(c, HOf(c, id)))
   /\ KeyOf(c, id) \notin p.committed
+  /\ KeyOf(c, id) \notin p.durable       \* in a block of the chain this node has applied
 Admissible(c, p, id) == AdmissibleAt(c, p, id, p.height)
 
 \* ------------------------------------------------------------------ what verify() computes (Pool.verify)
@@ -340,9 +348,22 @@ PruneGate(c, p, to) ==
 Update(c, p, to, ids, crash) ==
   LET p0 == [p EXCEPT !.tip = Max2(@, to)]
       p1 == ProcessBuffer(c, p0, to)
-      p2 == [p1 EXCEPT !.height = to, !.saved = IF crash THEN @ ELSE Max2(@, to)]
+      p2 == [p1 EXCEPT !.height = to, !.saved = IF crash THEN @ ELSE Max2(@, to),
+                       !.durable = IF crash THEN @ ELSE @ \cup {KeyOf(c, ids[i]) : i \in DOMAIN ids}]
       p3 == MarkCommitted(c, p2, ids)
   IN PruneGate(c, p3, to)
+
+\* ---- the end of BlockExecutor.ApplyBlock (state/execution.go), at the grain of its persistence
+\* steps.  The block is in the block store (consensus saved it); then
+\*     evpool.Update(state, block.Evidence)   -- pool: markers, pending keys, new state (volatile)
+\*     store.Save(state)                      -- the state says "block done"
+\* A crash may fall between the two.  Update with crash = TRUE is the first step alone;
+\* SaveState is the second.  Because the markers are durable BEFORE the state is, a restart
+\* either replays the block (state one behind the block store: Update again, idempotent) or
+\* finds the markers.
+SaveState(c, p, to, ids) ==
+  [p EXCEPT !.tip = Max2(@, to), !.saved = Max2(@, to),
+            !.durable = @ \cup {KeyOf(c, ids[i]) : i \in DOMAIN ids}]
 
 \* ---- Update at the grain of markEvidenceAsCommitted, so that calls of other goroutines
 \*      (AddEvidence of a gossiping peer, PendingEvidence, ...) can fall in between.
@@ -378,7 +399,8 @@ UpdateEnd(c, p) ==
       rr == Kr \cap PendingKeys(c, p)
       pm == [RemovePendingOnly(c, p, rr) EXCEPT !.committed = @ \cup KeysOfIds(c, u.ids)]
       rm == u.rm \cup rr
-      pl == [pm EXCEPT !.list = SelectSeq(@, LAMBDA x : KeyOf(c, x) \notin rm), !.saved = Max2(@, u.to), !.upd = NoUpd]
+      pl == [pm EXCEPT !.list = SelectSeq(@, LAMBDA x : KeyOf(c, x) \notin rm), !.saved = Max2(@, u.to), !.upd = NoUpd,
+                       !.durable = @ \cup KeysOfIds(c, u.ids)]
   IN PruneGate(c, pl, u.to)
 
 \* would a store step (addPendingEvidence) have to wait for the committing goroutine?
@@ -404,7 +426,7 @@ Restart(c, p) ==
 InitPool(c) ==
   [pending |-> {}, committed |-> {}, list |-> << >>, size |-> 0, buffer |-> << >>,
    height |-> c.H0, pruneH |-> c.H0, pruneT |-> TimeAt(c, c.H0), tip |-> c.H0, saved |-> c.H0,
-   inflight |-> {}, startH |-> c.H0, reported |-> {}, upd |-> NoUpd]
+   inflight |-> {}, startH |-> c.H0, reported |-> {}, upd |-> NoUpd, durable |-> {}]
 
 \* ------------------------------------------------------------------ one step, by action descriptor
 \* a.name in Add | Check | Report | Update | Pending | Restart | AddBegin | AddEnd
@@ -424,6 +446,7 @@ Step(c, p, a) ==
   CASE a.name = "Add"     -> AddEvidence(c, p, a.id)
     [] a.name = "Check"   -> CheckEvidence(c, p, a.ids)
     [] a.name = "Report"  -> [p |-> Report(c, p, a.pair), res |-> "ok", why |-> "none"]
+    [] a.name = "SaveState" -> [p |-> SaveState(c, p, a.to, a.ids), res |-> "ok", why |-> "none"]
     [] a.name = "Update"  ->
          IF FlushPanics(c, p, a.to)     \* the block is in the block store, the pool call never returns
          THEN [p |-> [p EXCEPT !.tip = Max2(@, a.to)], res |-> "panic", why |-> "none"]
@@ -512,7 +535,7 @@ StepViol(c, p, q, a) ==
         THEN {"BlockCheck"} ELSE {})
   \* used once: PendingEvidence never offers a committed or repeated item
 \cup (IF a.name = "Pending" /\
-         (\/ \E i \in DOMAIN a.got : KeyOf(c, a.got[i]) \in p.committed \/ a.got[i] \notin p.pending
+         (\/ \E i \in DOMAIN a.got : KeyOf(c, a.got[i]) \in p.committed \cup p.durable \/ a.got[i] \notin p.pending
           \/ \E i, j \in DOMAIN a.got : i # j /\ KeyOf(c, a.got[i]) = KeyOf(c, a.got[j]))
         THEN {"OnceOnly"} ELSE {})
   \* nothing leaves the pool except by commit or expiry (both limits, judged at the new state)
@@ -521,6 +544,9 @@ StepViol(c, p, q, a) ==
 \cup (IF IsUpd(a) /\ \E k \in gone : k \notin {KeyOf(c, a.ids[i]) : i \in DOMAIN a.ids} /\ ~expiredAtQ(k)
         THEN {"ExpiryBoth"} ELSE {})
 \cup (IF a.name = "Restart" /\ \E k \in gone : ~expiredAtQ(k) THEN {"SurvivesRestart"} ELSE {})
+  \* a restarted node that has nothing to replay (saved state = block store) knows every piece
+  \* of evidence its chain has committed: none of it is pending, all of it is marked
+\cup (IF a.name = "Restart" /\ q.saved = q.tip /\ ~(q.durable \subseteq q.committed) THEN {"OnceOnly"} ELSE {})
   \* conflicting votes of decided heights become pending evidence (or are already used up / out of date)
   \* -- EVERY DISTINCT pair reported: a prevote pair and a precommit pair of one validator in one
   \*    round are two pieces of evidence; repeats of one pair are one
@@ -535,6 +561,7 @@ StepViol(c, p, q, a) ==
   \* committed markers only grow, and only by the block's evidence
 \cup (IF ~(p.committed \subseteq q.committed) THEN {"CommittedKept"} ELSE {})
 \cup (IF ~IsUpd(a) /\ q.committed # p.committed THEN {"CommittedKept"} ELSE {})
+\cup (IF ~(p.durable \subseteq q.durable) THEN {"CommittedKept"} ELSE {})
 \cup (IF IsUpdEnd(a) /\ a.res # "panic" /\ ~({KeyOf(c, a.ids[i]) : i \in DOMAIN a.ids} \subseteq q.committed) THEN {"CommittedKept"} ELSE {})
 
 \* class string of a violation: narrows known-finding signatures to the input class / call site
@@ -554,6 +581,7 @@ ClassOf(c, p, q, a, inv) ==
     [] inv = "OnceOnly" ->
          (IF a.name = "AddEnd" THEN "add-stored-after-commit"
           ELSE IF a.name = "UpdateEnd" THEN "committed-marker-written-after-item-was-readded"
+          ELSE IF a.name = "Restart" THEN "restart-forgets-evidence-of-applied-block"
           ELSE a.name)
     [] inv = "AdmitOnlyAdmissible" ->
          (IF a.name = "AddEnd" /\ \E x \in NewIn(p, q) : KeyOf(c, x) \in p.committed THEN "add-stored-after-commit"
